@@ -143,6 +143,9 @@ def run_check(mod, tier, seed):
                     nontrivial.add((name, sig))
                 for f in mod.oracle(stream, cid, ops, outs):
                     oracle_fail.append((name, mode, cid, ops, outs, f))
+            if hasattr(mod, "stream_oracle"):
+                for (cid, f) in mod.stream_oracle(stream, impl):
+                    oracle_fail.append((name, mode, cid, dict(cases)[cid], impl.get(cid, []), f))
             if len(samples) < 6 and cases:
                 cid, ops = cases[0]
                 samples.append({"stream": name, "mode": mode, "ops": [o[:300] for o in ops[:8]],
